@@ -140,6 +140,7 @@ def corrected_equivalences(ctx, env):
 
 def run(ctx):
     env = kit.Env(ctx)
+    kit.aliasing_probe(ctx, env.m, "C06")   # before anything else: what follows runs in a process whose program aliases and updates in place
     m, mdl, pools, rng, orc = env.m, env.mdl, env.pools, ctx.rng, env.orc
     CNF = env.conv.ConversionNotFound
     Q = m.Quantity
